@@ -411,6 +411,38 @@ def returns_immutable(fn: ast.AST) -> bool:
     return bool(rets) and all(imm(r.value) for r in rets if r.value is not None)
 
 
+def flat_field(field: str, x: str, aliases: Dict[str, str]) -> str:
+    """Name under which field *x* of the helper object kept in ``self.<field>`` appears after inlining."""
+    return aliases.get(x) or "%s__%s" % (field, x)
+
+
+class _FieldObjRewriter(ast.NodeTransformer):
+    """After the body of a method of the helper object in ``self.<field>`` was spliced in with the helper's ``self``
+    renamed to the marker *mark*: ``mark.m(...)`` -> ``self.<field>.m(...)`` (a call that can be inlined in turn),
+    ``mark.x`` -> ``self.<alias or field__x>`` (the helper's data becomes data of the owner), ``mark`` -> ``self.<field>``."""
+
+    def __init__(self, mark: str, field: str, cls, program, aliases: Dict[str, str]):
+        self.mark, self.field, self.cls, self.P, self.aliases = mark, field, cls, program, aliases
+
+    def _owner_attr(self, attr: str, like: ast.AST, ctx) -> ast.AST:
+        return ast.copy_location(ast.Attribute(value=ast.copy_location(ast.Name(id="self", ctx=ast.Load()), like), attr=attr, ctx=ctx), like)
+
+    def visit_Attribute(self, n: ast.Attribute):
+        if isinstance(n.value, ast.Name) and n.value.id == self.mark:
+            is_method = self.cls is not None and self.P.lookup_method(self.cls, n.attr) is not None
+            if is_method:
+                base = self._owner_attr(self.field, n, ast.Load())
+                return ast.copy_location(ast.Attribute(value=base, attr=n.attr, ctx=n.ctx), n)
+            return self._owner_attr(flat_field(self.field, n.attr, self.aliases), n, n.ctx)
+        self.generic_visit(n)
+        return n
+
+    def visit_Name(self, n: ast.Name):
+        if n.id == self.mark:
+            return self._owner_attr(self.field, n, n.ctx)
+        return n
+
+
 class _Forwarder(ast.NodeTransformer):
     """Replace loads of ``<obj>.<field>`` by the expression the field forwards."""
 
@@ -481,6 +513,8 @@ class Inliner:
             pass
         elif isinstance(fn, ast.Attribute) and isinstance(fn.value, ast.Name) and self._local_instance_method(root, fn) is not None:
             t = self._local_instance_method(root, fn)   # method of a helper class instantiated in this function
+        elif isinstance(fn, ast.Attribute) and self._field_object_method(root, fn) is not None:
+            t = self._field_object_method(root, fn)     # method of a helper object the class keeps in a field
         elif isinstance(fn, ast.Attribute) and dotted(fn.value) is not None and "." not in dotted(fn.value):
             pass  # Class.helper(...) / module.helper(...)
         else:
@@ -520,6 +554,80 @@ class Inliner:
                 self.declined_sites[t.qualname] = self.declined_sites.get(t.qualname, 0) + 1
             return None
         return t
+
+    # -- helper objects kept in a field: `self.F = Helper(...)` in __init__, `self.F.m(...)` elsewhere
+    def field_object(self, root: FuncInfo, field: str):
+        """ClassInfo of the helper class (unknown to the reference tree) whose instance ``self.<field>`` holds for the
+        whole life of the object: assigned exactly once in the class family, in ``__init__``, to a constructor call."""
+        base = getattr(root, "inherited_from", None) or root
+        owner = base.cls
+        f_ = base
+        while owner is None and getattr(f_, "parent", None) is not None:
+            f_ = f_.parent
+            owner = f_.cls
+        if owner is None or self.reference is None:
+            return None
+        key = (owner.qualname, field)
+        cache = self.__dict__.setdefault("_fo_cache", {})
+        if key in cache:
+            return cache[key]
+        stores = []
+        related = list(owner.mro) + owner.all_subclasses()
+        for c in related:
+            for m in c.methods.values():
+                for n in walk_local(m.node):
+                    if isinstance(n, (ast.Assign, ast.AnnAssign)) and n.value is not None:
+                        tg = n.targets if isinstance(n, ast.Assign) else [n.target]
+                        if any(dotted(t_) == "self." + field for t_ in tg):
+                            stores.append((m, n.value))
+        ci = None
+        if len(stores) == 1 and stores[0][0].name == "__init__" and isinstance(stores[0][1], ast.Call) and dotted(stores[0][1].func):
+            m, v = stores[0]
+            try:
+                kind, obj = self.P.resolve_dotted(m.module, dotted(v.func), m)
+            except Exception:
+                kind, obj = None, None
+            if kind == "class" and obj.qualname not in self.reference:
+                ci = obj
+        cache[key] = ci
+        return ci
+
+    def _field_object_method(self, root: FuncInfo, fn: ast.Attribute) -> Optional[FuncInfo]:
+        d = dotted(fn.value)
+        if not d or not d.startswith("self.") or d.count(".") != 1:
+            return None
+        ci = self.field_object(root, d.split(".")[1])
+        if ci is None:
+            return None
+        m = self.P.lookup_method(ci, fn.attr)
+        if m is None or "property" in m.decorators or "staticmethod" in m.decorators or "classmethod" in m.decorators:
+            return None
+        return m
+
+    def field_aliases(self, root: FuncInfo, field: str) -> Dict[str, str]:
+        """{x: A} for the names under which the class re-exports parts of its helper object: ``self.A = self.<field>.x``
+        in ``__init__`` or a property ``A`` whose body is ``return self.<field>.x``."""
+        base = getattr(root, "inherited_from", None) or root
+        owner = base.cls
+        out: Dict[str, str] = {}
+        if owner is None:
+            return out
+        for c in list(owner.mro) + owner.all_subclasses():
+            for m in c.methods.values():
+                if m.name == "__init__":
+                    for n in walk_local(m.node):
+                        if isinstance(n, (ast.Assign, ast.AnnAssign)) and n.value is not None and (dotted(n.value) or "").startswith("self.%s." % field) \
+                                and (dotted(n.value) or "").count(".") == 2:
+                            for t_ in (n.targets if isinstance(n, ast.Assign) else [n.target]):
+                                dt = dotted(t_)
+                                if dt and dt.startswith("self.") and dt.count(".") == 1:
+                                    out.setdefault(dotted(n.value).split(".")[2], dt.split(".")[1])
+                elif "property" in m.decorators:
+                    body = [x for x in m.node.body if not (isinstance(x, ast.Expr) and isinstance(x.value, ast.Constant))]
+                    if len(body) == 1 and isinstance(body[0], ast.Return) and (dotted(body[0].value) or "").startswith("self.%s." % field) \
+                            and dotted(body[0].value).count(".") == 2:
+                        out.setdefault(dotted(body[0].value).split(".")[2], m.name)
+        return out
 
     def _local_instance_method(self, root: FuncInfo, fn: ast.Attribute) -> Optional[FuncInfo]:
         """``obj.method`` where ``obj`` is a local bound exactly once, to an instance of a class unknown to the
@@ -686,8 +794,16 @@ class Inliner:
                 mapping[bound_self] = bound_self  # the class object: left symbolic
             elif recv is not None and "." not in recv and recv not in ("self", "cls"):
                 mapping[bound_self] = recv        # method of a local helper object: `self.x` reads become `obj.x`
+            elif recv is not None and recv.startswith("self.") and recv.count(".") == 1 and self.field_object(root, recv.split(".")[1]) is t.cls \
+                    or (recv is not None and recv.startswith("self.") and recv.count(".") == 1 and self.field_object(root, recv.split(".")[1]) is not None
+                        and t.cls in self.field_object(root, recv.split(".")[1]).mro):
+                # method of a helper object kept in a field: the helper's `self` is `self.<field>`; its own fields are
+                # flattened into fields of the owner (see _FieldObjRewriter)
+                fo_field = recv.split(".")[1]
+                mapping[bound_self] = "__fo_" + fo_field
             else:
                 mapping[bound_self] = recv or target_self
+        subst_iter: Dict[str, ast.AST] = {}
         for p in params + kwonly:
             arg = actual.get(p, defaults.get(p))
             if arg is None:
@@ -697,6 +813,10 @@ class Inliner:
                 continue
             np_ = fresh(p)
             mapping[p] = np_
+            if isinstance(arg, (ast.GeneratorExp, ast.ListComp)) and p not in assigned and self._only_iterated_once(t.node, p):
+                # `helper((f(x) for x in xs))` with `for y in <param>` in the helper: iterate over the expression itself
+                subst_iter[np_] = arg
+                continue
             # a function handed in as an argument (callback): calls through the parameter can be inlined too
             if isinstance(arg, (ast.Name, ast.Attribute)) and p not in assigned:
                 d_ = dotted(arg)
@@ -710,6 +830,12 @@ class Inliner:
                         kind_, obj_ = None, None
                     if kind_ == "func":
                         tf = obj_
+                    elif d_.startswith("self.") and d_.count(".") == 1:
+                        base_ = getattr(root, "inherited_from", None) or root
+                        if base_.cls is not None:
+                            tf = self.P.lookup_method(base_.cls, d_.split(".")[1])
+                            if tf is not None and ("staticmethod" in tf.decorators or "classmethod" in tf.decorators or "property" in tf.decorators):
+                                tf = None
                 if tf is not None:
                     self.fn_alias[np_] = tf
             asg = ast.Assign(targets=[ast.Name(id=np_, ctx=ast.Store())], value=arg, lineno=ln, col_offset=0)
@@ -734,8 +860,22 @@ class Inliner:
             self.obj_forward[ctor_obj] = self._forwarded_fields(root, t, actual)
         ren = _Renamer({a_: b_ for a_, b_ in mapping.items() if a_ != b_})
         body = [ren.visit(s) for s in body]
+        if subst_iter:
+            class _It(ast.NodeTransformer):
+                def visit_For(self_, n):
+                    self_.generic_visit(n)
+                    if isinstance(n.iter, ast.Name) and n.iter.id in subst_iter:
+                        n.iter = copy.deepcopy(subst_iter[n.iter.id])
+                    return n
+                visit_AsyncFor = visit_For
+            body = [_It().visit(s_) for s_ in body]
         # a helper object that merely carries the caller's `self` (or an argument nobody rebinds) in a field it never
         # reassigns: reads of that field are reads of the original
+        fo_ = mapping.get(t.node.args.args[0].arg) if is_method and t.node.args.args else None
+        if fo_ and fo_.startswith("__fo_"):
+            fld = fo_[5:]
+            hc = self.field_object(root, fld)
+            body = [_FieldObjRewriter(fo_, fld, hc, self.P, self.field_aliases(root, fld)).visit(s_) for s_ in body]
         fw_obj = ctor_obj or (mapping.get(t.node.args.args[0].arg) if is_method and t.node.args.args else None)
         fw = self.obj_forward.get(fw_obj) if fw_obj else None
         if fw:
@@ -743,6 +883,13 @@ class Inliner:
         for s in body:
             ast.fix_missing_locations(s)
         return pre, body, ret
+
+    @staticmethod
+    def _only_iterated_once(fn: ast.AST, p: str) -> bool:
+        """Parameter *p* is used exactly once in the function, as the iterable of a ``for`` statement."""
+        uses = [n for n in walk_local(fn) if isinstance(n, ast.Name) and n.id == p and isinstance(n.ctx, ast.Load)]
+        fors = [n for n in walk_local(fn) if isinstance(n, (ast.For, ast.AsyncFor)) and isinstance(n.iter, ast.Name) and n.iter.id == p]
+        return len(uses) == 1 and len(fors) == 1
 
     def _forwarded_fields(self, root: FuncInfo, init: FuncInfo, actual: Dict[str, ast.AST]) -> Dict[str, ast.AST]:
         """{field: argument expression} for `self.F = <parameter>` statements of a helper class's __init__ whose field is
